@@ -20,6 +20,7 @@ import (
 	"sort"
 	"strings"
 	"sync"
+	"sync/atomic"
 	"time"
 
 	"go.uber.org/multierr"
@@ -50,6 +51,81 @@ type tc struct {
 	roAtCall   bool
 	pl         kit.Payload
 	asyncPanic string
+	scen       *scenario
+	ord        int   // invocation ordinal within the fan-out call (0-based)
+	deadAtCall bool  // the context was already done when this consumer was invoked
+	returned   error // what Consume returned
+}
+
+// ctxMode is the context dimension of an L1 case.
+type ctxMode struct {
+	Kind string `json:"kind"` // live | cancelled | expired | cancel-in | deadline-in
+	Pos  string `json:"pos"`  // first | middle | last-but-one (cancel-in / deadline-in), else ""
+	K    int    `json:"k"`    // invocation ordinal of the consumer that cancels / uses up the deadline, else -1
+}
+
+func (m ctxMode) label() string {
+	if m.Pos == "" {
+		return m.Kind
+	}
+	return m.Kind + "-" + m.Pos
+}
+
+// ctxModes lists the context scenarios for n consumers; positions are invocation ordinals, so they
+// do not depend on the order in which the fan-out serves its consumers.
+func ctxModes(n int) []ctxMode {
+	out := []ctxMode{{"live", "", -1}, {"cancelled", "", -1}, {"expired", "", -1}}
+	seen := map[int]bool{}
+	for _, p := range []struct {
+		pos string
+		k   int
+	}{{"first", 0}, {"middle", (n - 1) / 2}, {"last-but-one", n - 2}} {
+		if p.k < 0 || seen[p.k] {
+			continue
+		}
+		seen[p.k] = true
+		out = append(out, ctxMode{"cancel-in", p.pos, p.k}, ctxMode{"deadline-in", p.pos, p.k})
+	}
+	return out
+}
+
+// scenario is the per-case state shared by the consumers of one fan-out call.
+type scenario struct {
+	mode   ctxMode
+	order  atomic.Int32
+	base   context.Context // the context handed to the fan-out
+	cancel context.CancelFunc
+}
+
+// deadlineSlack is how far in the future the deadline of a deadline-in case lies when the fan-out is
+// called. It only has to be positive: the consumer at ordinal k waits on ctx.Done(), so the deadline
+// expires while it is running whenever it was not reached later than that (then it has expired
+// before, which is the "expired" scenario for the remaining consumers). No verdict depends on it.
+const deadlineSlack = 300 * time.Microsecond
+
+func newScenario(m ctxMode) *scenario {
+	sc := &scenario{mode: m}
+	switch m.Kind {
+	case "live":
+		sc.base, sc.cancel = context.WithCancel(context.Background())
+	case "cancelled":
+		sc.base, sc.cancel = context.WithCancel(context.Background())
+		sc.cancel()
+	case "expired":
+		sc.base, sc.cancel = context.WithDeadline(context.Background(), time.Now().Add(-time.Hour))
+	case "cancel-in":
+		sc.base, sc.cancel = context.WithCancel(context.Background())
+	default: // deadline-in: armed by arm() right before the fan-out call
+		sc.base, sc.cancel = context.WithCancel(context.Background())
+	}
+	return sc
+}
+
+func (sc *scenario) arm() {
+	if sc.mode.Kind == "deadline-in" {
+		sc.cancel()
+		sc.base, sc.cancel = context.WithTimeout(context.Background(), deadlineSlack)
+	}
 }
 
 func (c *tc) name() string { return fmt.Sprintf("c%d", c.idx) }
@@ -58,13 +134,34 @@ func (c *tc) Capabilities() consumer.Capabilities {
 	return consumer.Capabilities{MutatesData: c.mutates}
 }
 
-func (c *tc) consume(pl kit.Payload) error {
+// consume never refuses because of the context: like a queue-backed exporter it accepts the data
+// regardless. Only the scripted failure, or the failure of the consumer that used up the deadline, is
+// returned.
+func (c *tc) consume(ctx context.Context, pl kit.Payload) (err error) {
+	defer func() { c.returned = err }()
 	c.mu.Lock()
 	c.calls++
+	c.ord = int(c.scen.order.Add(1)) - 1
+	c.deadAtCall = ctx.Err() != nil
 	c.atCall = pl.Marshal()
 	c.roAtCall = pl.IsReadOnly()
 	c.pl = pl
 	c.mu.Unlock()
+	fail := c.fail
+	if c.ord == c.scen.mode.K {
+		switch c.scen.mode.Kind {
+		case "cancel-in":
+			c.scen.cancel() // synchronously, before this consumer returns
+		case "deadline-in":
+			select { // a slow consumer: it runs until the request deadline has passed, then gives up
+			case <-ctx.Done():
+			case <-c.scen.base.Done(): // in case the fan-out handed us a context of its own
+			}
+			if fail == nil {
+				fail = fmt.Errorf("consumer %d used up the deadline: %w", c.idx, context.DeadlineExceeded)
+			}
+		}
+	}
 	switch {
 	case c.mutates && c.async:
 		c.wg.Add(1)
@@ -92,18 +189,20 @@ func (c *tc) consume(pl kit.Payload) error {
 			}
 		}()
 	}
-	return c.fail
+	return fail
 }
 
-func (c *tc) ConsumeLogs(_ context.Context, v plog.Logs) error { return c.consume(kit.OfLogs(v)) }
-func (c *tc) ConsumeTraces(_ context.Context, v ptrace.Traces) error {
-	return c.consume(kit.OfTraces(v))
+func (c *tc) ConsumeLogs(ctx context.Context, v plog.Logs) error {
+	return c.consume(ctx, kit.OfLogs(v))
 }
-func (c *tc) ConsumeMetrics(_ context.Context, v pmetric.Metrics) error {
-	return c.consume(kit.OfMetrics(v))
+func (c *tc) ConsumeTraces(ctx context.Context, v ptrace.Traces) error {
+	return c.consume(ctx, kit.OfTraces(v))
 }
-func (c *tc) ConsumeProfiles(_ context.Context, v pprofile.Profiles) error {
-	return c.consume(kit.OfProfiles(v))
+func (c *tc) ConsumeMetrics(ctx context.Context, v pmetric.Metrics) error {
+	return c.consume(ctx, kit.OfMetrics(v))
+}
+func (c *tc) ConsumeProfiles(ctx context.Context, v pprofile.Profiles) error {
+	return c.consume(ctx, kit.OfProfiles(v))
 }
 
 func newFanout(sig kit.Signal, cs []*tc) kit.Next {
@@ -142,6 +241,7 @@ type l1Case struct {
 	Failing  string     `json:"failing_mask"`
 	Async    string     `json:"async_mask"`
 	ReadOnly bool       `json:"read_only_input"`
+	Context  ctxMode    `json:"context"`
 	Payload  int64      `json:"payload_seed"`
 	Problems []string   `json:"problems,omitempty"`
 }
@@ -171,15 +271,17 @@ func shape(mask, n int) string { // low-cardinality class of a capability vector
 	return "mixed"
 }
 
-func l1(c *driver.Ctx, sig kit.Signal, n, mask, failMask int, ro bool, pseed int64) {
+func l1(c *driver.Ctx, sig kit.Signal, n, mask, failMask int, ro bool, cm ctxMode, pseed int64) {
 	c.Eval()
 	rng := rand.New(rand.NewSource(pseed))
 	asyncMask := rng.Intn(1 << n)
 	var wg sync.WaitGroup
 	cs := make([]*tc, n)
 	var injected []error
+	sc := newScenario(cm)
+	defer func() { sc.cancel() }()
 	for i := range cs {
-		cs[i] = &tc{idx: i, mutates: mask>>i&1 == 1, async: asyncMask>>i&1 == 1, wg: &wg}
+		cs[i] = &tc{idx: i, mutates: mask>>i&1 == 1, async: asyncMask>>i&1 == 1, wg: &wg, scen: sc, ord: -1}
 		if failMask>>i&1 == 1 {
 			cs[i].fail = fmt.Errorf("injected failure of consumer %d", i)
 			injected = append(injected, cs[i].fail)
@@ -193,24 +295,33 @@ func l1(c *driver.Ctx, sig kit.Signal, n, mask, failMask int, ro bool, pseed int
 	f := newFanout(sig, cs)
 	advertised := f.Capabilities().MutatesData
 	var err error
-	pv, stack := driver.Catch(func() { err = f.Consume(context.Background(), orig) })
+	sc.arm()
+	pv, stack := driver.Catch(func() { err = f.Consume(sc.base, orig) })
 	wg.Wait()
 
-	w := l1Case{Signal: sig, N: n, Mutating: bits(mask, n), Failing: bits(failMask, n), Async: bits(asyncMask, n), ReadOnly: ro, Payload: pseed}
-	sg := []string{"level", "L1", "signal", string(sig), "vector", shape(mask, n), "ro_input", fmt.Sprint(ro)}
+	w := l1Case{Signal: sig, N: n, Mutating: bits(mask, n), Failing: bits(failMask, n), Async: bits(asyncMask, n), ReadOnly: ro, Context: cm, Payload: pseed}
+	sg := []string{"level", "L1", "signal", string(sig), "vector", shape(mask, n), "ro_input", fmt.Sprint(ro), "ctx", cm.label()}
 	vio := func(sub, what string, extra ...string) {
 		w.Problems = append(w.Problems, what)
 		c.Violation(sub, what, w, append(append([]string(nil), sg...), extra...)...)
 	}
 	if n >= 2 {
-		c.Nontrivial("L1", sig, n, mask, ro, failMask)
+		c.Nontrivial("L1", sig, n, mask, ro, failMask, cm.label())
 	}
 	c.Observe("L1_cases", 1)
-	if n == 4 && mask == 5 && failMask == 2 && !ro {
+	c.Observe("L1_cases_ctx:"+cm.Kind, 1)
+	for _, x := range cs {
+		if x.calls > 0 && x.deadAtCall {
+			c.Observe("L1_consumers_invoked_with_done_context", 1)
+		}
+	}
+	if n == 4 && mask == 5 && failMask == 2 && !ro && cm.Kind == "deadline-in" && cm.K == 1 {
 		c.Sample(map[string]any{"level": "L1", "case": w, "advertised_mutates": advertised, "returned_error": fmt.Sprint(err), "markers_per_consumer_at_end": func() map[string][]string {
 			m := map[string][]string{}
 			for _, x := range cs {
-				m[x.name()+":"+role(x)] = kit.MarkersIn(x.pl.Marshal())
+				if x.calls > 0 { // a consumer that was never invoked holds no payload
+					m[x.name()+":"+role(x)] = kit.MarkersIn(x.pl.Marshal())
+				}
 			}
 			return m
 		}()})
@@ -227,7 +338,7 @@ func l1(c *driver.Ctx, sig kit.Signal, n, mask, failMask int, ro bool, pseed int
 	}
 	for _, x := range cs {
 		if x.calls != 1 {
-			vio("invocation", fmt.Sprintf("consumer %d of %d was invoked %d times (failing=%s)", x.idx, n, x.calls, bits(failMask, n)), "problem", fmt.Sprintf("calls-%d", min(x.calls, 2)))
+			vio("invocation", fmt.Sprintf("consumer %d of %d was invoked %d times (failing=%s, context %s, context error at return: %v)", x.idx, n, x.calls, bits(failMask, n), cm.label(), sc.base.Err()), "problem", fmt.Sprintf("calls-%d", min(x.calls, 2)))
 			continue
 		}
 		c.Observe("L1_consumer_observations", 1)
@@ -268,15 +379,22 @@ func l1(c *driver.Ctx, sig kit.Signal, n, mask, failMask int, ro bool, pseed int
 			}
 		}
 	}
-	// errors: every injected error is in the result, nothing else
+	// errors: every scripted failure and every error a consumer actually returned (the consumer that
+	// used up the deadline fails too) is in the result, nothing else — also not the context's own error
 	got := multierr.Errors(err)
-	for _, ie := range injected {
-		if !errors.Is(err, ie) {
-			vio("error-aggregation", fmt.Sprintf("returned error %v lacks %v", err, ie), "problem", "lost")
+	expected := append([]error(nil), injected...)
+	for _, x := range cs {
+		if x.returned != nil && x.fail == nil {
+			expected = append(expected, x.returned)
 		}
 	}
-	if len(got) != len(injected) {
-		vio("error-aggregation", fmt.Sprintf("returned error has %d parts, %d consumers failed: %v", len(got), len(injected), err), "problem", "count")
+	for _, ie := range expected {
+		if !errors.Is(err, ie) {
+			vio("error-aggregation", fmt.Sprintf("returned error %v lacks %v (context %s)", err, ie, cm.label()), "problem", "lost")
+		}
+	}
+	if len(got) != len(expected) {
+		vio("error-aggregation", fmt.Sprintf("returned error has %d parts, %d consumers failed (context %s): %v", len(got), len(expected), cm.label(), err), "problem", "count")
 	}
 	// the caller's original
 	origEnd := orig.Marshal()
@@ -322,9 +440,10 @@ func role(x *tc) string {
 }
 
 func runL1(c *driver.Ctx) {
-	rounds := int64(c.N(2, 130)) // payload seeds per (signal, vector, failing subset, read-only)
+	// payload seeds per (signal, vector, failing subset, read-only, context scenario): 96 544 cases per round
+	rounds := int64(c.N(1, 20))
 	if c.Variant == "race" {
-		rounds = int64(c.N(1, 26))
+		rounds = int64(c.N(1, 6))
 	}
 	g := int64(0)
 	for round := int64(0); round < rounds; round++ {
@@ -333,11 +452,13 @@ func runL1(c *driver.Ctx) {
 				for mask := 0; mask < 1<<n; mask++ {
 					for failMask := 0; failMask < 1<<n; failMask++ {
 						for _, ro := range []bool{false, true} {
-							g++
-							if !c.Mine(g) {
-								continue
+							for _, cm := range ctxModes(n) {
+								g++
+								if !c.Mine(g) {
+									continue
+								}
+								l1(c, sig, n, mask, failMask, ro, cm, c.Seed*1000003+g)
 							}
-							l1(c, sig, n, mask, failMask, ro, c.Seed*1000003+g)
 						}
 					}
 				}
@@ -421,6 +542,7 @@ func l2(c *driver.Ctx, rng *rand.Rand) {
 		sent       []byte
 		advertised bool
 		err        error
+		ctx        string
 	}
 	var injs []*injection
 	var running bool
@@ -442,7 +564,22 @@ func l2(c *driver.Ctx, rng *rand.Rand) {
 				j := &injection{in: in, orig: kit.NewPayload(in.Signal, kit.Msg{Tag: in.Tag()}, rng), advertised: in.Next.Capabilities().MutatesData}
 				j.sent = j.orig.Marshal()
 				injs = append(injs, j)
-				j.err = in.Next.Consume(context.Background(), j.orig)
+				// the request context of the receiver: live, already cancelled, or past its deadline.
+				// The kit components accept data regardless of the context, so nothing else changes.
+				ctx, cancel := context.WithCancel(context.Background())
+				switch rng.Intn(4) {
+				case 0:
+					cancel()
+					j.ctx = "cancelled"
+				case 1:
+					cancel()
+					ctx, cancel = context.WithDeadline(context.Background(), time.Now().Add(-time.Hour))
+					j.ctx = "expired"
+				default:
+					j.ctx = "live"
+				}
+				j.err = in.Next.Consume(ctx, j.orig)
+				cancel()
 			}
 			env.Settle()
 			runErr = run.Stop()
@@ -575,6 +712,7 @@ func l2(c *driver.Ctx, rng *rand.Rand) {
 	// the receiver's original
 	for _, j := range injs {
 		c.Observe("L2_injections", 1)
+		c.Observe("L2_injections_ctx:"+j.ctx, 1)
 		end := j.orig.Marshal()
 		if !j.advertised {
 			c.Observe("L2_originals_checked_unchanged", 1)
@@ -639,9 +777,10 @@ func main() {
 	driver.Main(driver.Spec{
 		ID:    "C06",
 		Level: "exploration",
-		Rule: "L1: a case is (signal, capability vector of 1–5 consumers, failing subset, read-only flag) — all 4 × Σ(2^n·2^n) × 2 = 10 912 combinations are enumerated completely per payload round, each with a generated payload and a random sync/async assignment; non-trivial = at least 2 consumers; distinct = (signal, n, vector, read-only, failing subset). " +
+		Rule: "L1: a case is (signal, capability vector of 1–5 consumers, failing subset, read-only flag, context scenario: live | already cancelled | deadline already expired | cancelled synchronously from inside the consumer invoked first / in the middle / last-but-one | deadline that expires while that consumer is running, i.e. it waits on ctx.Done() and then fails) — all 96 544 combinations are enumerated completely per payload round, each with a generated payload and a random sync/async assignment; consumers never refuse because of the context; non-trivial = at least 2 consumers; distinct = (signal, n, vector, read-only, failing subset, context scenario). " +
 			"L2: a case is one seeded random service configuration (1–4 pipelines, processors declaring or not declaring mutation, exporters mutating sync/async or re-reading async, same-signal connectors in mutate/pass mode) with one generated payload injected at every receiver instance; non-trivial = some receiver, connector or pipeline fans out to at least 2 consumers; distinct = canonical configuration",
 		Assumptions: []string{
+			"context scenarios are positioned by invocation ordinal (the k-th consumer the fan-out invokes), so they do not assume a serving order; the deadline of a deadline-in case lies 300 µs ahead when the fan-out is called and the consumer at ordinal k blocks on ctx.Done(): no verdict depends on that duration. L2 injects with a live, cancelled or expired context (kit components accept data regardless)",
 			"content equality is equality of the OTLP protobuf bytes; a mutation is the kit's unique marker mutation (attribute on resource and scope, changed leaf, appended leaf item)",
 			"L2: the capability of a single pipeline is not observable from outside, so the oracle is behavioural (markers/trails per path, bytes at call and at the end, the receiver's original whenever MutatesData=false was advertised)",
 			"race reports whose innermost frames are pdata accessors are attributed to the repository by the driver: they mean a payload was shared between an asynchronous mutator and another consumer",
